@@ -732,13 +732,13 @@ theorem segInit_lay (c : Cls) (hdrPhoff : BitVec 64) (phentsize phnum : BitVec 1
     | (simp only [pure, Except.pure, Except.ok.injEq] at h; subst h; rfl)
     | (simp [throw, throwThe, MonadExceptOf.throw] at h)
 
-/-- no wrap-around while laying out one segment -/
+/-- no wrap-around while laying out one segment (and the segment's offset fits the class's field) -/
 def segNW (c : Cls) (hdrPhoff : BitVec 64) (phentsize phnum : BitVec 16) (lay : Layout) (g : Seg) : Bool :=
   match segFirstGen lay g with
   | .ok fg =>
     match segInit c hdrPhoff phentsize phnum lay g fg with
     | .ok r =>
-      decide (lay.pos.toNat ≤ r.1.pos.toNat) &&
+      decide (lay.pos.toNat ≤ r.1.pos.toNat) && fitsB c r.2.1 &&
         wsdLoopNW c g r.2.1 g.secs { lay := r.1, mem := r.2.2.1, file := r.2.2.2 }
     | _ => true
   | _ => true
@@ -761,10 +761,10 @@ theorem layoutSegment_inv (c : Cls) (hdrPhoff : BitVec 64) (phentsize phnum : Bi
       simp only [Bool.and_eq_true, decide_eq_true_eq] at h hnw
       have hl := segInit_lay c hdrPhoff phentsize phnum lay g fg r hin
       have hinv1 : LayInv lo r.1 := by
-        rw [hl]; exact ⟨hinv.len, hinv.packed.mono hnw.1⟩
+        rw [hl]; exact ⟨hinv.len, hinv.packed.mono hnw.1.1⟩
       have hstep1 : LayStep lay r.1 := by
         rw [hl]
-        exact ⟨hnw.1, rfl, fun _ h => h, fun _ _ _ h => h, fun _ s h => ⟨s, h, SecBuf.Moved.refl s⟩,
+        exact ⟨hnw.1.1, rfl, fun _ h => h, fun _ _ _ h => h, fun _ s h => ⟨s, h, SecBuf.Moved.refl s⟩,
           fun _ _ h1 h2 => absurd h2 h1⟩
       cases hw : wsdLoop c g r.2.1 g.secs { lay := r.1, mem := r.2.2.1, file := r.2.2.2 } with
       | error e => rw [hw] at h; simp at h
@@ -1191,5 +1191,724 @@ theorem layout_packed (o : Obj) (h : Bytes) (res : LayoutRes) (hl : layoutOf o h
         exact hP2.disj k1 k2 a' b' hne has hbs hg1 hg2 ha hb
   · rw [hsh]; exact (lst_cursor_facts res.pos3 (by rw [← hsh]; exact hnw4)).2
   · rw [hsh]; exact (lst_cursor_facts res.pos3 (by rw [← hsh]; exact hnw4)).1
+
+/-! ### writer domain: what one placement does, exactly -/
+
+theorem wsdPlace_facts (c : Cls) (g : Seg) (segStart pos gap : BitVec 64) (sec : SecBuf)
+    (hidx : sec.index ≠ 0)
+    (h01 : pos.toNat ≤ (wsd_cursor_gap pos gap).toNat)
+    (h12 : (wsd_cursor_gap pos gap).toNat ≤ (wsdPlace c g segStart pos gap sec).2.toNat)
+    (hfit : fitsB c (wsd_cursor_gap pos gap) = true) :
+    (wsdPlace c g segStart pos gap sec).1.offset = pos + gap ∧
+    (pos + gap).toNat = pos.toNat + gap.toNat ∧
+    (wsdPlace c g segStart pos gap sec).2.toNat =
+      pos.toNat + gap.toNat + (if wsd_counts_file sec.stype then sec.size.toNat else 0) ∧
+    (wsdPlace c g segStart pos gap sec).1.addr =
+      (if sec.addrSet then sec.addr else truncA c (g.vaddr + (pos + gap) - segStart)) := by
+  have key : ∀ sa : SecBuf, sa.index = sec.index → sa.stype = sec.stype → sa.size = sec.size →
+      (pos + gap).toNat ≤ (if wsd_counts_file (setOffset c sa (pos + gap)).stype = true then
+          wsd_advance (pos + gap) (setOffset c sa (pos + gap)).size else pos + gap).toNat →
+      (setOffset c sa (pos + gap)).offset = pos + gap ∧
+      (pos + gap).toNat = pos.toNat + gap.toNat ∧
+      (if wsd_counts_file (setOffset c sa (pos + gap)).stype = true then
+          wsd_advance (pos + gap) (setOffset c sa (pos + gap)).size else pos + gap).toNat =
+        pos.toNat + gap.toNat + (if wsd_counts_file sec.stype then sec.size.toNat else 0) ∧
+      (setOffset c sa (pos + gap)).addr = sa.addr := by
+    intro sa hsai hsat hsas h12
+    simp only [wsd_cursor_gap] at h01 hfit
+    have hoff : (setOffset c sa (pos + gap)).offset = pos + gap :=
+      setOffset_offset c sa _ (by rw [hsai]; exact hidx) hfit
+    have hst2 : (setOffset c sa (pos + gap)).stype = sec.stype := by rw [(setOffset_moved c sa _).stype, hsat]
+    have hsz2 : (setOffset c sa (pos + gap)).size = sec.size := by rw [(setOffset_moved c sa _).size, hsas]
+    have hadd : (setOffset c sa (pos + gap)).addr = sa.addr := by unfold setOffset; split <;> rfl
+    rw [hst2, hsz2] at h12 ⊢
+    have hpg := bv_add_toNat_of_le _ _ h01
+    refine ⟨hoff, hpg, ?_, hadd⟩
+    by_cases hcf : wsd_counts_file sec.stype = true
+    · simp only [hcf, if_true, wsd_advance] at h12 ⊢
+      rw [bv_add_toNat_of_le _ _ h12, hpg]
+    · have hcf' : wsd_counts_file sec.stype = false := by simpa using hcf
+      simp only [hcf', Bool.false_eq_true, if_false, Nat.add_zero]; exact hpg
+  unfold wsdPlace at h12 ⊢
+  simp only [wsd_cursor_gap] at h12 ⊢
+  cases has : sec.addrSet with
+  | true =>
+    simp only [has, Bool.not_true, Bool.false_eq_true, ↓reduceIte] at h12 ⊢
+    exact key sec rfl rfl rfl h12
+  | false =>
+    simp only [has, Bool.not_false, Bool.false_eq_true, ↓reduceIte] at h12 ⊢
+    have := key { sec with addr := truncA c (wsd_new_addr g.vaddr (pos + gap) segStart), addrSet := true } rfl rfl rfl h12
+    simpa [wsd_new_addr] using this
+
+/-- a generic "every step satisfies `P`" predicate along `wsdLoop` -/
+def wsdLoopAll (P : WsdSt → BitVec 16 → Bool) (c : Cls) (g : Seg) (segStart : BitVec 64) :
+    List (BitVec 16) → WsdSt → Bool
+  | [], _ => true
+  | idx :: rest, st =>
+    P st idx &&
+      match wsdStep c g segStart st idx with
+      | .ok (some st') => wsdLoopAll P c g segStart rest st'
+      | _ => true
+
+/-- Writer-domain side conditions of one step (for a non-NULL member): the member counts towards the
+    memory size (it is SHF_ALLOC and not a TLS NOBITS section outside a PT_TLS segment), the memory
+    size does not wrap, and an address assigned by the writer fits the class's address field. -/
+def wsdStepDom (c : Cls) (g : Seg) (segStart : BitVec 64) (st : WsdSt) (idx : BitVec 16) : Bool :=
+  match st.lay.secs[idx.toNat]?, st.lay.gen[idx.toNat]? with
+  | some sec, some generated =>
+    if wsd_is_null sec.stype then true else
+    match wsdGap g segStart st.lay.pos st.file sec generated with
+    | none => true
+    | some gap =>
+      wsd_counts_mem sec.flags g.stype sec.stype &&
+      decide (st.mem.toNat + sec.size.toNat + gap.toNat < 18446744073709551616) &&
+      (generated || sec.addrSet || fitsB c (g.vaddr + (st.lay.pos + gap) - segStart))
+  | _, _ => true
+
+/-- F14 side condition of one step: a not yet generated member with an explicit address is a
+    non-empty section that occupies file space (so that its address determines the gap) -/
+def wsdStepAtCursor (st : WsdSt) (idx : BitVec 16) : Bool :=
+  match st.lay.secs[idx.toNat]?, st.lay.gen[idx.toNat]? with
+  | some sec, some false =>
+    wsd_is_null sec.stype || !sec.addrSet || wsd_addr_branch false true sec.stype sec.size
+  | _, _ => true
+
+/-- the running sizes of `write_segment_data` are consistent with the cursor -/
+structure WsdInv (cov ins : Bool) (segStart : BitVec 64) (st : WsdSt) : Prop where
+  fileLe : st.file.toNat ≤ st.mem.toNat
+  /-- (tracked for `memsz_covers`) the memory size is at least the distance walked in the file -/
+  cur : cov = true → segStart.toNat ≤ st.lay.pos.toNat ∧ st.lay.pos.toNat - segStart.toNat ≤ st.mem.toNat
+  /-- (tracked for `member_inside`) so is the file size -/
+  fil : ins = true → segStart.toNat ≤ st.lay.pos.toNat ∧ st.lay.pos.toNat - segStart.toNat ≤ st.file.toNat
+
+/-- side condition for `member_inside`: a not yet generated member that does not occupy file space
+    (SHT_NOBITS) needs no alignment gap (otherwise the cursor runs ahead of the file size, cf. F13) -/
+def wsdStepNoNobitsGap (g : Seg) (segStart : BitVec 64) (st : WsdSt) (idx : BitVec 16) : Bool :=
+  match st.lay.secs[idx.toNat]?, st.lay.gen[idx.toNat]? with
+  | some sec, some false =>
+    wsd_is_null sec.stype || wsd_counts_file sec.stype ||
+      (wsdGap g segStart st.lay.pos st.file sec false == some 0)
+  | _, _ => true
+
+/-- what a call of `wsdStep`/`wsdLoop` guarantees for the members it generates, on the writer domain -/
+structure DomStep (cov ins : Bool) (g : Seg) (segStart : BitVec 64) (st st' : WsdSt) : Prop where
+  memMono : st.mem.toNat ≤ st'.mem.toNat
+  fileMono : st.file.toNat ≤ st'.file.toNat
+  /-- file-occupying members: same distance from the segment start in file and memory -/
+  equi : ∀ (k : Nat) (s' : SecBuf), ¬ st.lay.Gen k → st'.lay.Gen k → st'.lay.secs[k]? = some s' → s'.Occ →
+    s'.offset - segStart = s'.addr - g.vaddr
+  /-- members (other than SHT_NULL ones) are covered by the running memory size -/
+  covers : cov = true → ∀ (k : Nat) (s' : SecBuf), ¬ st.lay.Gen k → st'.lay.Gen k → st'.lay.secs[k]? = some s' →
+    s'.stype ≠ BitVec.ofNat 32 SHT_NULL → (s'.addr - g.vaddr).toNat + s'.size.toNat ≤ st'.mem.toNat
+  /-- file-occupying members lie inside `[segStart, segStart + file size)` -/
+  inside : ins = true → ∀ (k : Nat) (s' : SecBuf), ¬ st.lay.Gen k → st'.lay.Gen k → st'.lay.secs[k]? = some s' →
+    s'.Occ → segStart.toNat ≤ s'.offset.toNat ∧ s'.endN ≤ segStart.toNat + st'.file.toNat
+
+theorem DomStep.refl (cov ins : Bool) (g : Seg) (segStart : BitVec 64) (st : WsdSt) : DomStep cov ins g segStart st st :=
+  ⟨Nat.le_refl _, Nat.le_refl _, fun _ _ h1 h2 => absurd h2 h1, fun _ _ _ h1 h2 => absurd h2 h1,
+   fun _ _ _ h1 h2 => absurd h2 h1⟩
+
+theorem DomStep.trans {cov ins : Bool} {g : Seg} {segStart : BitVec 64} {a b c : WsdSt}
+    (l1 : LayStep a.lay b.lay) (d1 : DomStep cov ins g segStart a b)
+    (l2 : LayStep b.lay c.lay) (d2 : DomStep cov ins g segStart b c) : DomStep cov ins g segStart a c := by
+  have hsrc : ∀ (k : Nat) (s' : SecBuf), c.lay.secs[k]? = some s' → b.lay.Gen k → b.lay.secs[k]? = some s' := by
+    intro k s' hs' hgb
+    have hk : k < b.lay.secs.length := by
+      rw [← l2.len]
+      rcases Nat.lt_or_ge k c.lay.secs.length with h | h
+      · exact h
+      · rw [List.getElem?_eq_none h] at hs'; exact nomatch hs'
+    have hb : b.lay.secs[k]? = some b.lay.secs[k] := List.getElem?_eq_getElem hk
+    have := l2.frame k _ hgb hb
+    rw [hs'] at this; rw [hb, this]
+  refine ⟨Nat.le_trans d1.memMono d2.memMono, Nat.le_trans d1.fileMono d2.fileMono, ?_, ?_, ?_⟩
+  · intro k s' hng hg hs' ho
+    by_cases hgb : b.lay.Gen k
+    · exact d1.equi k s' hng hgb (hsrc k s' hs' hgb) ho
+    · exact d2.equi k s' hgb hg hs' ho
+  · intro hc k s' hng hg hs' hnn
+    by_cases hgb : b.lay.Gen k
+    · have := d1.covers hc k s' hng hgb (hsrc k s' hs' hgb) hnn
+      have := d2.memMono
+      omega
+    · exact d2.covers hc k s' hgb hg hs' hnn
+  · intro hc k s' hng hg hs' ho
+    by_cases hgb : b.lay.Gen k
+    · have := d1.inside hc k s' hng hgb (hsrc k s' hs' hgb) ho
+      have := d2.fileMono
+      omega
+    · exact d2.inside hc k s' hgb hg hs' ho
+
+/-- the three things `wsdStep` can do when it does not abort -/
+theorem wsdStep_cases (c : Cls) (g : Seg) (segStart : BitVec 64) (st st' : WsdSt) (idx : BitVec 16)
+    (h : wsdStep c g segStart st idx = .ok (some st')) :
+    ∃ sec generated, st.lay.secs[idx.toNat]? = some sec ∧ st.lay.gen[idx.toNat]? = some generated ∧
+      ((wsd_is_null sec.stype = true ∧
+          st' = { st with lay := { st.lay with gen := st.lay.gen.set idx.toNat true } }) ∨
+       (wsd_is_null sec.stype = false ∧ ∃ gap, wsdGap g segStart st.lay.pos st.file sec generated = some gap ∧
+          ((generated = true ∧ st' = { st with
+              mem := if wsd_counts_mem sec.flags g.stype sec.stype then wsd_mem_add st.mem sec.size gap else st.mem,
+              file := if wsd_counts_file sec.stype then wsd_file_add st.file sec.size gap else st.file }) ∨
+           (generated = false ∧ st' =
+            { lay := { secs := st.lay.secs.set idx.toNat (wsdPlace c g segStart st.lay.pos gap sec).1,
+                       pos := (wsdPlace c g segStart st.lay.pos gap sec).2,
+                       gen := st.lay.gen.set idx.toNat true },
+              mem := if wsd_counts_mem sec.flags g.stype sec.stype then wsd_mem_add st.mem sec.size gap else st.mem,
+              file := if wsd_counts_file sec.stype then wsd_file_add st.file sec.size gap else st.file })))) := by
+  rw [wsdStep_eq] at h
+  cases hsec : st.lay.secs[idx.toNat]? with
+  | none => rw [hsec] at h; simp [throw, throwThe, MonadExceptOf.throw] at h
+  | some sec =>
+  cases hgen : st.lay.gen[idx.toNat]? with
+  | none => rw [hsec, hgen] at h; simp [throw, throwThe, MonadExceptOf.throw] at h
+  | some generated =>
+  rw [hsec, hgen] at h
+  simp only at h
+  refine ⟨sec, generated, rfl, rfl, ?_⟩
+  by_cases hnull : wsd_is_null sec.stype = true
+  · simp only [hnull, if_true, pure, Except.pure, Except.ok.injEq, Option.some.injEq] at h
+    exact Or.inl ⟨hnull, h.symm⟩
+  · have hnull' : wsd_is_null sec.stype = false := by simpa using hnull
+    simp only [hnull', Bool.false_eq_true, if_false] at h
+    right
+    refine ⟨hnull', ?_⟩
+    cases hgap : wsdGap g segStart st.lay.pos st.file sec generated with
+    | none => rw [hgap] at h; simp [pure, Except.pure] at h
+    | some gap =>
+      rw [hgap] at h
+      simp only at h
+      refine ⟨gap, rfl, ?_⟩
+      cases generated with
+      | true =>
+        simp only [if_true, pure, Except.pure, Except.ok.injEq, Option.some.injEq] at h
+        exact Or.inl ⟨rfl, h.symm⟩
+      | false =>
+        simp only [Bool.false_eq_true, if_false, pure, Except.pure, Except.ok.injEq, Option.some.injEq] at h
+        exact Or.inr ⟨rfl, h.symm⟩
+
+theorem wsd_mem_add_toNat (m sz gap : BitVec 64)
+    (h : m.toNat + sz.toNat + gap.toNat < 18446744073709551616) :
+    (wsd_mem_add m sz gap).toNat = m.toNat + sz.toNat + gap.toNat := by
+  unfold wsd_mem_add; bv_omega
+
+theorem wsd_file_add_toNat (f m sz gap : BitVec 64) (hfm : f.toNat ≤ m.toNat)
+    (h : m.toNat + sz.toNat + gap.toNat < 18446744073709551616) :
+    (wsd_file_add f sz gap).toNat = f.toNat + sz.toNat + gap.toNat := by
+  unfold wsd_file_add; bv_omega
+
+theorem wsd_file_add_le (f m sz gap : BitVec 64) (hfm : f.toNat ≤ m.toNat)
+    (h : m.toNat + sz.toNat + gap.toNat < 18446744073709551616) :
+    (wsd_file_add f sz gap).toNat ≤ m.toNat + sz.toNat + gap.toNat := by
+  unfold wsd_file_add; bv_omega
+
+/-- one member on the writer domain -/
+theorem wsdStep_dom (cov ins : Bool) (c : Cls) (g : Seg) (segStart : BitVec 64) (st st' : WsdSt) (idx : BitVec 16)
+    (lo : Nat) (hinv : LayInv lo st.lay) (hw : WsdInv cov ins segStart st)
+    (hnw : wsdStepNW c g segStart st idx = true) (hdom : wsdStepDom c g segStart st idx = true)
+    (hcur : cov = true → wsdStepAtCursor st idx = true)
+    (hins : ins = true → wsdStepNoNobitsGap g segStart st idx = true)
+    (h : wsdStep c g segStart st idx = .ok (some st')) :
+    WsdInv cov ins segStart st' ∧ DomStep cov ins g segStart st st' := by
+  obtain ⟨sec, generated, hsec, hgen, hcases⟩ := wsdStep_cases c g segStart st st' idx h
+  have hilen : idx.toNat < st.lay.gen.length := by
+    rcases Nat.lt_or_ge idx.toNat st.lay.gen.length with h' | h'
+    · exact h'
+    · rw [List.getElem?_eq_none h'] at hgen; exact nomatch hgen
+  have hslen : idx.toNat < st.lay.secs.length := by rw [← hinv.len]; exact hilen
+  have hG : ∀ k, (st.lay.gen.set idx.toNat true)[k]? = some true ↔
+      (st.lay.Gen k ∨ k = idx.toNat) := fun k => getElem?_set_true_iff _ _ _ hilen
+  unfold wsdStepDom at hdom
+  rw [hsec, hgen] at hdom
+  simp only at hdom
+  rcases hcases with ⟨hnull, rfl⟩ | ⟨hnull, gap, hgap, hrest⟩
+  · -- SHT_NULL member
+    refine ⟨⟨hw.fileLe, hw.cur, hw.fil⟩, Nat.le_refl _, Nat.le_refl _, ?_, ?_, ?_⟩
+    · intro k s' hng hg hs' ho
+      rcases (hG k).1 hg with h' | h'
+      · exact absurd h' hng
+      · subst h'; simp only at hs'; rw [hsec] at hs'; simp only [Option.some.injEq] at hs'; subst hs'
+        simp only [wsd_is_null, beq_iff_eq] at hnull
+        exact absurd hnull.symm ho.2.1
+    rotate_left
+    · intro _ k s' hng hg hs' ho
+      rcases (hG k).1 hg with h' | h'
+      · exact absurd h' hng
+      · subst h'; simp only at hs'; rw [hsec] at hs'; simp only [Option.some.injEq] at hs'; subst hs'
+        simp only [wsd_is_null, beq_iff_eq] at hnull
+        exact absurd hnull.symm ho.2.1
+    · intro _ k s' hng hg hs' hnn
+      rcases (hG k).1 hg with h' | h'
+      · exact absurd h' hng
+      · subst h'; simp only at hs'; rw [hsec] at hs'; simp only [Option.some.injEq] at hs'; subst hs'
+        simp only [wsd_is_null, beq_iff_eq] at hnull
+        exact absurd hnull.symm hnn
+  · simp only [hnull, Bool.false_eq_true, if_false, hgap, Bool.and_eq_true, decide_eq_true_eq,
+      Bool.or_eq_true] at hdom
+    obtain ⟨⟨hcm, hmnw⟩, hafit⟩ := hdom
+    have hmem : (wsd_mem_add st.mem sec.size gap).toNat = st.mem.toNat + sec.size.toNat + gap.toNat :=
+      wsd_mem_add_toNat _ _ _ hmnw
+    have hfile : (if wsd_counts_file sec.stype = true then wsd_file_add st.file sec.size gap else st.file).toNat ≤
+        st.mem.toNat + sec.size.toNat + gap.toNat := by
+      split
+      · exact wsd_file_add_le _ _ _ _ hw.fileLe hmnw
+      · have := hw.fileLe; omega
+    have hfmono : st.file.toNat ≤
+        (if wsd_counts_file sec.stype = true then wsd_file_add st.file sec.size gap else st.file).toNat := by
+      split
+      · rw [wsd_file_add_toNat _ _ _ _ hw.fileLe hmnw]; omega
+      · exact Nat.le_refl _
+    rcases hrest with ⟨hgen', rfl⟩ | ⟨hgen', rfl⟩
+    · -- already generated: only the counters move
+      simp only [hcm, if_true]
+      refine ⟨⟨by simp only; rw [hmem]; exact hfile,
+          fun hc => ⟨(hw.cur hc).1, by simp only; rw [hmem]; have := (hw.cur hc).2; omega⟩,
+          fun hc => ⟨(hw.fil hc).1, by simp only; have := (hw.fil hc).2; omega⟩⟩,
+        by simp only; rw [hmem]; omega, hfmono, fun _ _ h1 h2 => absurd h2 h1, fun _ _ _ h1 h2 => absurd h2 h1,
+        fun _ _ _ h1 h2 => absurd h2 h1⟩
+    · -- placed now
+      subst hgen'
+      simp only [hcm, if_true]
+      unfold wsdStepNW at hnw
+      rw [hsec, hgen] at hnw
+      simp only [hnull, Bool.false_eq_true, if_false, hgap, Bool.and_eq_true, decide_eq_true_eq] at hnw
+      obtain ⟨⟨h01, h12⟩, hfit⟩ := hnw
+      have hmoved := wsdPlace_moved c g segStart st.lay.pos gap sec
+      have hnn : sec.stype ≠ BitVec.ofNat 32 SHT_NULL := by
+        intro e; simp [wsd_is_null, e] at hnull
+      -- facts that need index ≠ 0 are only used for sections that occupy file space
+      have hpos' : st.lay.pos.toNat ≤ (wsdPlace c g segStart st.lay.pos gap sec).2.toNat := by
+        have : (wsd_cursor_gap st.lay.pos gap).toNat ≤ (wsdPlace c g segStart st.lay.pos gap sec).2.toNat := h12
+        omega
+      -- cursor arithmetic that does not need the offset to be stored
+      have hp1 : (st.lay.pos + gap).toNat = st.lay.pos.toNat + gap.toNat := by
+        simp only [wsd_cursor_gap] at h01; exact bv_add_toNat_of_le _ _ h01
+      have hp2 : (wsdPlace c g segStart st.lay.pos gap sec).2.toNat =
+          st.lay.pos.toNat + gap.toNat + (if wsd_counts_file sec.stype then sec.size.toNat else 0) := by
+        have h12' := h12
+        unfold wsdPlace at h12' ⊢
+        simp only [wsd_cursor_gap] at h12' ⊢
+        have e1 : ∀ sa : SecBuf, sa.stype = sec.stype → sa.size = sec.size →
+            (st.lay.pos + gap).toNat ≤ (if wsd_counts_file (setOffset c sa (st.lay.pos + gap)).stype = true then
+              wsd_advance (st.lay.pos + gap) (setOffset c sa (st.lay.pos + gap)).size else st.lay.pos + gap).toNat →
+            (if wsd_counts_file (setOffset c sa (st.lay.pos + gap)).stype = true then
+              wsd_advance (st.lay.pos + gap) (setOffset c sa (st.lay.pos + gap)).size else st.lay.pos + gap).toNat =
+            st.lay.pos.toNat + gap.toNat + (if wsd_counts_file sec.stype then sec.size.toNat else 0) := by
+          intro sa h1 h2 hle
+          rw [(setOffset_moved c sa _).stype, (setOffset_moved c sa _).size, h1, h2] at hle ⊢
+          by_cases hcf : wsd_counts_file sec.stype = true
+          · simp only [hcf, if_true, wsd_advance] at hle ⊢
+            rw [bv_add_toNat_of_le _ _ hle, hp1]
+          · have hcf' : wsd_counts_file sec.stype = false := by simpa using hcf
+            simp only [hcf', Bool.false_eq_true, if_false, Nat.add_zero]; exact hp1
+        cases has : sec.addrSet with
+        | true =>
+          simp only [has, Bool.not_true, Bool.false_eq_true, ↓reduceIte] at h12' ⊢
+          exact e1 sec rfl rfl h12'
+        | false =>
+          simp only [has, Bool.not_false, Bool.false_eq_true, ↓reduceIte] at h12' ⊢
+          exact e1 { sec with addr := truncA c (wsd_new_addr g.vaddr (st.lay.pos + gap) segStart), addrSet := true } rfl rfl h12'
+      -- the file size side condition
+      have hfil' : ins = true → segStart.toNat ≤ (wsdPlace c g segStart st.lay.pos gap sec).2.toNat ∧
+          (wsdPlace c g segStart st.lay.pos gap sec).2.toNat - segStart.toNat ≤
+            (if wsd_counts_file sec.stype = true then wsd_file_add st.file sec.size gap else st.file).toNat := by
+        intro hc
+        obtain ⟨f1, f2⟩ := hw.fil hc
+        refine ⟨by omega, ?_⟩
+        rw [hp2]
+        by_cases hcf : wsd_counts_file sec.stype = true
+        · simp only [hcf, if_true]
+          rw [wsd_file_add_toNat _ _ _ _ hw.fileLe hmnw]; omega
+        · have hcf' : wsd_counts_file sec.stype = false := by simpa using hcf
+          simp only [hcf', Bool.false_eq_true, if_false, Nat.add_zero]
+          have hz := hins hc
+          unfold wsdStepNoNobitsGap at hz
+          rw [hsec, hgen] at hz
+          simp only [hnull, hcf', Bool.false_or, beq_iff_eq] at hz
+          rw [hgap] at hz
+          simp only [Option.some.injEq] at hz
+          have hz0 : gap.toNat = 0 := by rw [hz]; rfl
+          omega
+      refine ⟨⟨by simp only; rw [hmem]; exact hfile, ?_, hfil'⟩, by simp only; rw [hmem]; omega, hfmono, ?_, ?_, ?_⟩
+      · intro hc
+        obtain ⟨hstart, hmg⟩ := hw.cur hc
+        refine ⟨by simp only; omega, ?_⟩
+        simp only; rw [hmem, hp2]; split <;> omega
+      · -- equidistance
+        intro k s' hng hg hs' ho
+        rcases (hG k).1 hg with h' | h'
+        · exact absurd h' hng
+        · subst h'
+          simp only [List.getElem?_set, if_true, hslen, Option.some.injEq] at hs'
+          subst hs'
+          have hosec : sec.Occ := (hmoved.occ).1 ho
+          have hidx : sec.index ≠ 0 := hinv.packed.nz _ _ hsec hosec
+          obtain ⟨foff, -, -, faddr⟩ := wsdPlace_facts c g segStart st.lay.pos gap sec hidx h01 h12 hfit
+          rw [foff, faddr]
+          cases has : sec.addrSet with
+          | true =>
+            simp only [if_true]
+            have hb : wsd_addr_branch false true sec.stype sec.size = true := by
+              simp only [wsd_addr_branch, Bool.not_false, Bool.true_and, Bool.and_eq_true, bne_iff_ne, ne_eq]
+              exact ⟨⟨fun e => hosec.1 e.symm, fun e => hosec.2.1 e.symm⟩, fun e => hosec.2.2 (by
+                have : (BitVec.signExtend 64 0#32) = 0#64 := by decide
+                rw [this] at e; exact e.symm)⟩
+            unfold wsdGap at hgap
+            rw [has, hb] at hgap
+            simp only [if_true] at hgap
+            split at hgap
+            · exact nomatch hgap
+            · simp only [Option.some.injEq] at hgap
+              subst hgap
+              simp only [wsd_gap_addr, wsd_req_offset, wsd_cur_offset]
+              bv_omega
+          | false =>
+            simp only [Bool.false_eq_true, if_false]
+            have hf : fitsB c (g.vaddr + (st.lay.pos + gap) - segStart) = true := by
+              rcases hafit with h' | h'
+              · rcases h' with h' | h'
+                · exact nomatch h'
+                · rw [has] at h'; exact nomatch h'
+              · exact h'
+            rw [truncA_of_fits c _ hf]
+            bv_omega
+      · -- coverage
+        intro hc k s' hng hg hs' hnn'
+        obtain ⟨hstart, hmg⟩ := hw.cur hc
+        rcases (hG k).1 hg with h' | h'
+        · exact absurd h' hng
+        · subst h'
+          simp only [List.getElem?_set, if_true, hslen, Option.some.injEq] at hs'
+          subst hs'
+          have hcur' := hcur hc
+          unfold wsdStepAtCursor at hcur'
+          rw [hsec, hgen] at hcur'
+          simp only [hnull, Bool.false_or, Bool.or_eq_true, Bool.not_eq_true'] at hcur'
+          simp only
+          rw [hmem, hmoved.size]
+          -- the address of the placed section
+          have haddr : (wsdPlace c g segStart st.lay.pos gap sec).1.addr =
+              (if sec.addrSet then sec.addr else truncA c (g.vaddr + (st.lay.pos + gap) - segStart)) := by
+            unfold wsdPlace
+            simp only [wsd_cursor_gap, wsd_new_addr]
+            have : ∀ sa : SecBuf, (setOffset c sa (st.lay.pos + gap)).addr = sa.addr := by
+              intro sa; unfold setOffset; split <;> rfl
+            rw [this]
+            cases sec.addrSet <;> simp
+          rw [haddr]
+          cases has : sec.addrSet with
+          | true =>
+            simp only [if_true]
+            rcases hcur' with h' | hb
+            · rw [has] at h'; exact nomatch h'
+            · unfold wsdGap at hgap
+              rw [has, hb] at hgap
+              simp only [if_true] at hgap
+              split at hgap
+              · exact nomatch hgap
+              · rename_i hlt
+                simp only [Option.some.injEq] at hgap
+                subst hgap
+                simp only [wsd_gap_addr, wsd_req_offset, wsd_cur_offset, wsd_req_lt_cur, BitVec.ult,
+                  decide_eq_true_eq] at hlt ⊢
+                bv_omega
+          | false =>
+            simp only [Bool.false_eq_true, if_false]
+            have hf : fitsB c (g.vaddr + (st.lay.pos + gap) - segStart) = true := by
+              rcases hafit with h' | h'
+              · rcases h' with h' | h'
+                · exact nomatch h'
+                · rw [has] at h'; exact nomatch h'
+              · exact h'
+            rw [truncA_of_fits c _ hf]
+            bv_omega
+      · -- inside the file range
+        intro hc k s' hng hg hs' ho
+        obtain ⟨f1, f2⟩ := hw.fil hc
+        obtain ⟨g1, g2⟩ := hfil' hc
+        rcases (hG k).1 hg with h' | h'
+        · exact absurd h' hng
+        · subst h'
+          simp only [List.getElem?_set, if_true, hslen, Option.some.injEq] at hs'
+          subst hs'
+          have hosec : sec.Occ := (hmoved.occ).1 ho
+          have hidx : sec.index ≠ 0 := hinv.packed.nz _ _ hsec hosec
+          obtain ⟨foff, fp1, fp2, -⟩ := wsdPlace_facts c g segStart st.lay.pos gap sec hidx h01 h12 hfit
+          have hcf : wsd_counts_file sec.stype = true := by
+            simp only [wsd_counts_file, bne_iff_ne, ne_eq]; exact fun e => hosec.1 e.symm
+          simp only [hcf, if_true] at fp2 g2 ⊢
+          unfold SecBuf.endN
+          rw [foff, hmoved.size, fp1]
+          omega
+
+/-! ### writer domain: the segment start is congruent to the virtual address -/
+
+theorem lseg_align_toNat (align : BitVec 64) : (lseg_align align).toNat = max align.toNat 1 := by
+  have e0 : (BitVec.signExtend 64 0#32) = 0#64 := by decide
+  have e1 : (BitVec.signExtend 64 1#32) = 1#64 := by decide
+  unfold lseg_align
+  rw [e0, e1]
+  by_cases h : BitVec.ult 0#64 align = true
+  · simp only [h, if_true]
+    simp only [BitVec.ult, BitVec.toNat_ofNat, Nat.reducePow, Nat.zero_mod, decide_eq_true_eq] at h
+    omega
+  · simp only [h, Bool.false_eq_true, if_false]
+    simp only [BitVec.ult, BitVec.toNat_ofNat, Nat.reducePow, Nat.zero_mod, decide_eq_true_eq] at h
+    simp only [BitVec.toNat_ofNat, Nat.reducePow, Nat.reduceMod]
+    omega
+
+theorem nat_congr_step (p a r : Nat) (x : Nat) (ha : 0 < a) (hr : r < a)
+    (hx : x = (if p % a ≤ r then r - p % a else a + r - p % a)) : (p + x) % a = r := by
+  have hd := Nat.div_add_mod p a
+  have hc := Nat.mod_lt p ha
+  by_cases h : p % a ≤ r
+  · simp only [h, if_true] at hx
+    have : p + x = r + a * (p / a) := by omega
+    rw [this, Nat.add_mul_mod_self_left, Nat.mod_eq_of_lt hr]
+  · simp only [h, if_false] at hx
+    have : p + x = r + a * (p / a + 1) := by rw [Nat.mul_add, Nat.mul_one]; omega
+    rw [this, Nat.add_mul_mod_self_left, Nat.mod_eq_of_lt hr]
+
+theorem lseg_advance_congr (pos vaddr align : BitVec 64)
+    (hal : align.toNat ≤ 9223372036854775808)
+    (hle : pos.toNat ≤ (lseg_advance pos align (lseg_adjustment (lseg_req_page vaddr (lseg_align align))
+      (lseg_cur_page pos (lseg_align align))) (lseg_align align)).toNat) :
+    (lseg_advance pos align (lseg_adjustment (lseg_req_page vaddr (lseg_align align))
+      (lseg_cur_page pos (lseg_align align))) (lseg_align align)).toNat % (max align.toNat 1) =
+    vaddr.toNat % (max align.toNat 1) := by
+  have hA := lseg_align_toNat align
+  generalize lseg_align align = A at *
+  unfold lseg_advance at hle ⊢
+  rw [bv_add_toNat_of_le _ _ hle]
+  have hp := pos.isLt; have hv := vaddr.isLt; have ha := align.isLt
+  have hapos : 0 < A.toNat := by omega
+  have hr := Nat.mod_lt vaddr.toNat hapos
+  have hc := Nat.mod_lt pos.toNat hapos
+  rw [← hA]
+  apply nat_congr_step _ _ _ _ hapos hr
+  simp only [lseg_adjustment, lseg_req_page, lseg_cur_page, BitVec.toNat_umod, BitVec.toNat_add,
+    BitVec.toNat_sub, Nat.reducePow]
+  by_cases hz : align.toNat = 0
+  · have : A.toNat = 1 := by omega
+    simp only [this, Nat.mod_one]; simp
+  · have hAa : A.toNat = align.toNat := by omega
+    rw [hAa] at hr hc ⊢
+    by_cases h : pos.toNat % align.toNat ≤ vaddr.toNat % align.toNat
+    · simp only [h, if_true]
+      have e : (align.toNat + (18446744073709551616 - pos.toNat % align.toNat + vaddr.toNat % align.toNat) % 18446744073709551616) % 18446744073709551616
+          = align.toNat + (vaddr.toNat % align.toNat - pos.toNat % align.toNat) := by omega
+      rw [e, Nat.add_mod_left, Nat.mod_eq_of_lt (by omega)]
+    · simp only [h, if_false]
+      have e : (align.toNat + (18446744073709551616 - pos.toNat % align.toNat + vaddr.toNat % align.toNat) % 18446744073709551616) % 18446744073709551616
+          = align.toNat + vaddr.toNat % align.toNat - pos.toNat % align.toNat := by omega
+      rw [e, Nat.mod_eq_of_lt (by omega)]
+
+/-! ### writer domain: `write_segment_data` as a whole, one segment -/
+
+theorem wsdLoop_dom (cov ins : Bool) (c : Cls) (g : Seg) (segStart : BitVec 64) (l : List (BitVec 16))
+    (st st' : WsdSt) (lo : Nat) (hinv : LayInv lo st.lay) (hw : WsdInv cov ins segStart st)
+    (hnw : wsdLoopNW c g segStart l st = true)
+    (hdom : wsdLoopAll (wsdStepDom c g segStart) c g segStart l st = true)
+    (hcur : cov = true → wsdLoopAll (fun st idx => wsdStepAtCursor st idx) c g segStart l st = true)
+    (hins : ins = true → wsdLoopAll (wsdStepNoNobitsGap g segStart) c g segStart l st = true)
+    (h : wsdLoop c g segStart l st = .ok (some st')) :
+    WsdInv cov ins segStart st' ∧ DomStep cov ins g segStart st st' := by
+  induction l generalizing st with
+  | nil =>
+    simp only [wsdLoop, pure, Except.pure, Except.ok.injEq, Option.some.injEq] at h
+    subst h; exact ⟨hw, DomStep.refl _ _ _ _ _⟩
+  | cons idx rest ih =>
+    unfold wsdLoop at h
+    unfold wsdLoopNW at hnw
+    unfold wsdLoopAll at hdom hcur hins
+    cases hs : wsdStep c g segStart st idx with
+    | error e => rw [hs] at h; simp [bind, Except.bind] at h
+    | ok r =>
+      rw [hs] at h hnw hdom hcur hins
+      cases r with
+      | none => simp [bind, Except.bind, pure, Except.pure] at h
+      | some st1 =>
+        simp only [bind, Except.bind, Bool.and_eq_true] at h hnw hdom hcur hins
+        obtain ⟨i1, s1⟩ := wsdStep_inv c g segStart st st1 idx lo hinv hnw.1 hs
+        obtain ⟨w1, d1⟩ := wsdStep_dom cov ins c g segStart st st1 idx lo hinv hw hnw.1 hdom.1
+          (fun hc => (hcur hc).1) (fun hc => (hins hc).1) hs
+        obtain ⟨w2, d2⟩ := ih st1 i1 w1 hnw.2 hdom.2 (fun hc => (hcur hc).2) (fun hc => (hins hc).2) h
+        obtain ⟨-, s2⟩ := wsdLoop_inv c g segStart rest st1 st' lo i1 hnw.2 h
+        exact ⟨w2, DomStep.trans s1 d1 s2 d2⟩
+
+/-- the pieces of a successful `layoutSegment` -/
+theorem layoutSegment_parts (c : Cls) (hdrPhoff : BitVec 64) (phentsize phnum : BitVec 16) (lay lay' : Layout)
+    (g g' : Seg) (h : layoutSegment c hdrPhoff phentsize phnum lay g = .ok (some (lay', g'))) :
+    ∃ fg r st, segFirstGen lay g = .ok fg ∧ segInit c hdrPhoff phentsize phnum lay g fg = .ok r ∧
+      wsdLoop c g r.2.1 g.secs { lay := r.1, mem := r.2.2.1, file := r.2.2.2 } = .ok (some st) ∧
+      lay' = st.lay ∧ g' = segFinish c g r.2.1 st := by
+  rw [layoutSegment_eq] at h
+  cases hfg : segFirstGen lay g with
+  | error e => rw [hfg] at h; simp [bind, Except.bind] at h
+  | ok fg =>
+    rw [hfg] at h
+    simp only [bind, Except.bind] at h
+    cases hin : segInit c hdrPhoff phentsize phnum lay g fg with
+    | error e => rw [hin] at h; simp at h
+    | ok r =>
+      rw [hin] at h
+      simp only at h
+      cases hw : wsdLoop c g r.2.1 g.secs { lay := r.1, mem := r.2.2.1, file := r.2.2.2 } with
+      | error e => rw [hw] at h; simp at h
+      | ok w =>
+        rw [hw] at h
+        cases w with
+        | none => simp [pure, Except.pure] at h
+        | some st =>
+          simp only [pure, Except.pure, Except.ok.injEq, Option.some.injEq, Prod.mk.injEq] at h
+          exact ⟨fg, r, st, rfl, hin, hw, h.1.symm, h.2.symm⟩
+
+theorem segInit_sizes (c : Cls) (hdrPhoff : BitVec 64) (phentsize phnum : BitVec 16) (lay : Layout) (g : Seg)
+    (fg : Bool) (r : Layout × BitVec 64 × BitVec 64 × BitVec 64)
+    (h : segInit c hdrPhoff phentsize phnum lay g fg = .ok r) : r.2.2.1 = r.2.2.2 := by
+  unfold segInit at h
+  simp only at h
+  repeat' split at h
+  all_goals first
+    | (simp only [pure, Except.pure, Except.ok.injEq] at h; subst h; rfl)
+    | (simp [throw, throwThe, MonadExceptOf.throw] at h)
+
+/-- a segment that starts a fresh run: not the PHDR / offset-0 special cases, and its first member
+    has not been generated yet — the cursor is advanced to `offset ≡ vaddr (mod align)` -/
+def segFresh (lay : Layout) (g : Seg) : Prop :=
+  lseg_is_phdr g.stype (BitVec.ofNat 16 g.secs.length) = false ∧ lseg_offset0 g.offsetSet g.offset = false ∧
+  ∃ f, g.secs.head? = some f ∧ lay.gen[f.toNat]? = some false
+
+theorem segInit_fresh (c : Cls) (hdrPhoff : BitVec 64) (phentsize phnum : BitVec 16) (lay : Layout) (g : Seg)
+    (hf : segFresh lay g) :
+    segFirstGen lay g = .ok false ∧
+    segInit c hdrPhoff phentsize phnum lay g false =
+      .ok ({ lay with pos := lseg_advance lay.pos g.align (lseg_adjustment (lseg_req_page g.vaddr (lseg_align g.align))
+              (lseg_cur_page lay.pos (lseg_align g.align))) (lseg_align g.align) },
+           lseg_advance lay.pos g.align (lseg_adjustment (lseg_req_page g.vaddr (lseg_align g.align))
+              (lseg_cur_page lay.pos (lseg_align g.align))) (lseg_align g.align), 0, 0) := by
+  obtain ⟨h1, h2, f, hh, hg⟩ := hf
+  have hlen : g.secs.length > 0 := by
+    cases hs : g.secs with
+    | nil => rw [hs] at hh; exact nomatch hh
+    | cons a b => simp
+  constructor
+  · unfold segFirstGen; rw [hh]; simp only; rw [hg]; rfl
+  · unfold segInit
+    simp only [h1, h2, Bool.false_eq_true, if_false, hlen, decide_true, Bool.not_false, Bool.and_self, if_true]
+    rfl
+
+/-- writer-domain side conditions while laying out one segment (`wsdStepDom` for every member, and —
+    if requested — `wsdStepAtCursor` (F14) / `wsdStepNoNobitsGap`; the final memory size fits the
+    class's field) -/
+def segDom (cov ins : Bool) (c : Cls) (hdrPhoff : BitVec 64) (phentsize phnum : BitVec 16) (lay : Layout) (g : Seg) : Bool :=
+  match segFirstGen lay g with
+  | .ok fg =>
+    match segInit c hdrPhoff phentsize phnum lay g fg with
+    | .ok r =>
+      wsdLoopAll (wsdStepDom c g r.2.1) c g r.2.1 g.secs { lay := r.1, mem := r.2.2.1, file := r.2.2.2 } &&
+      (!cov || wsdLoopAll (fun st idx => wsdStepAtCursor st idx) c g r.2.1 g.secs { lay := r.1, mem := r.2.2.1, file := r.2.2.2 }) &&
+      (!ins || wsdLoopAll (wsdStepNoNobitsGap g r.2.1) c g r.2.1 g.secs { lay := r.1, mem := r.2.2.1, file := r.2.2.2 }) &&
+      (match wsdLoop c g r.2.1 g.secs { lay := r.1, mem := r.2.2.1, file := r.2.2.2 } with
+       | .ok (some st) => fitsB c st.mem
+       | _ => true)
+    | _ => true
+  | _ => true
+
+theorem fitsB_mono (c : Cls) (a b : BitVec 64) (h : a.toNat ≤ b.toNat) (hb : fitsB c b = true) : fitsB c a = true := by
+  cases c with
+  | c64 => rfl
+  | c32 => simp only [fitsB, decide_eq_true_eq] at hb ⊢; omega
+
+theorem segFinish_fields (c : Cls) (g : Seg) (segStart : BitVec 64) (st : WsdSt) :
+    (segFinish c g segStart st).offset = truncA c segStart ∧
+    (segFinish c g segStart st).filesz = truncA c st.file ∧
+    (segFinish c g segStart st).memsz = (if lseg_memsz_lt g.memsz st.mem then truncA c st.mem else g.memsz) ∧
+    (segFinish c g segStart st).vaddr = g.vaddr ∧ (segFinish c g segStart st).align = g.align ∧
+    (segFinish c g segStart st).secs = g.secs ∧ (segFinish c g segStart st).stype = g.stype ∧
+    (segFinish c g segStart st).index = g.index := by
+  unfold segFinish
+  simp only
+  split <;> simp
+
+/-- One segment on the writer domain.  `lay`/`g`: state and segment before, `lay'`/`g'`: after.
+    Members "generated by this segment" are those with `¬ lay.Gen k` and `lay'.Gen k`. -/
+theorem layoutSegment_dom (cov ins : Bool) (c : Cls) (hdrPhoff : BitVec 64) (phentsize phnum : BitVec 16)
+    (lay lay' : Layout) (g g' : Seg) (lo : Nat) (hinv : LayInv lo lay)
+    (hnw : segNW c hdrPhoff phentsize phnum lay g = true)
+    (hdom : segDom cov ins c hdrPhoff phentsize phnum lay g = true)
+    (h : layoutSegment c hdrPhoff phentsize phnum lay g = .ok (some (lay', g'))) :
+    -- memsz ≥ filesz
+    g'.filesz.toNat ≤ g'.memsz.toNat ∧
+    -- file-occupying members generated here are equidistant
+    (∀ (k : Nat) (s' : SecBuf), ¬ lay.Gen k → lay'.Gen k → lay'.secs[k]? = some s' → s'.Occ →
+      s'.offset - g'.offset = s'.addr - g'.vaddr) ∧
+    -- for a segment that starts a fresh run:
+    (segFresh lay g →
+      (g.align.toNat ≤ 9223372036854775808 →
+        g'.offset.toNat % (max g'.align.toNat 1) = g'.vaddr.toNat % (max g'.align.toNat 1)) ∧
+      (cov = true → ∀ (k : Nat) (s' : SecBuf), ¬ lay.Gen k → lay'.Gen k → lay'.secs[k]? = some s' →
+        s'.stype ≠ BitVec.ofNat 32 SHT_NULL → (s'.addr - g'.vaddr).toNat + s'.size.toNat ≤ g'.memsz.toNat) ∧
+      (ins = true → ∀ (k : Nat) (s' : SecBuf), ¬ lay.Gen k → lay'.Gen k → lay'.secs[k]? = some s' → s'.Occ →
+        g'.offset.toNat ≤ s'.offset.toNat ∧ s'.endN ≤ g'.offset.toNat + g'.filesz.toNat)) := by
+  obtain ⟨fg, r, st, hfg, hin, hloop, rfl, rfl⟩ := layoutSegment_parts c hdrPhoff phentsize phnum lay lay' g g' h
+  unfold segNW at hnw
+  unfold segDom at hdom
+  rw [hfg] at hnw hdom
+  simp only at hnw hdom
+  rw [hin] at hnw hdom
+  simp only [hloop, Bool.and_eq_true, decide_eq_true_eq, Bool.or_eq_true, Bool.not_eq_true'] at hnw hdom
+  obtain ⟨⟨hpos, hsfit⟩, hlnw⟩ := hnw
+  obtain ⟨⟨⟨hd1, hd2⟩, hd3⟩, hmfit⟩ := hdom
+  have hl := segInit_lay c hdrPhoff phentsize phnum lay g fg r hin
+  have hinv1 : LayInv lo r.1 := by rw [hl]; exact ⟨hinv.len, hinv.packed.mono hpos⟩
+  have hsz := segInit_sizes c hdrPhoff phentsize phnum lay g fg r hin
+  obtain ⟨hoff, hfs, hms, hva, hal, -, -, -⟩ := segFinish_fields c g r.2.1 st
+  have hG1 : ∀ k, (r.1).Gen k ↔ lay.Gen k := by intro k; rw [hl]; exact Iff.rfl
+  rw [hoff, hfs, hms, hva, hal, truncA_of_fits c _ hsfit]
+  -- the unconditional part: run the loop with both flags off
+  have hw0 : WsdInv false false r.2.1 { lay := r.1, mem := r.2.2.1, file := r.2.2.2 } :=
+    ⟨by simp only; rw [hsz]; exact Nat.le_refl _, (fun h => nomatch h), (fun h => nomatch h)⟩
+  obtain ⟨w0, d0⟩ := wsdLoop_dom false false c g r.2.1 g.secs _ st lo hinv1 hw0 hlnw hd1
+    ((fun h => nomatch h)) ((fun h => nomatch h)) hloop
+  have hffit : fitsB c st.file = true := fitsB_mono c _ _ w0.fileLe hmfit
+  have hmem : st.mem.toNat ≤ (if lseg_memsz_lt g.memsz st.mem then truncA c st.mem else g.memsz).toNat := by
+    split
+    · rw [truncA_of_fits c _ hmfit]; exact Nat.le_refl _
+    · rename_i hlt
+      simp only [lseg_memsz_lt, BitVec.ult, decide_eq_true_eq] at hlt
+      omega
+  rw [truncA_of_fits c _ hffit]
+  refine ⟨by have := w0.fileLe; omega, ?_, ?_⟩
+  · intro k s' hng hg hs' ho
+    exact d0.equi k s' (fun hh => hng ((hG1 k).1 hh)) hg hs' ho
+  · intro hfresh
+    obtain ⟨hfg', hin'⟩ := segInit_fresh c hdrPhoff phentsize phnum lay g hfresh
+    rw [hfg] at hfg'; simp only [Except.ok.injEq] at hfg'; subst hfg'
+    rw [hin] at hin'; simp only [Except.ok.injEq] at hin'
+    have e1 : r.2.1 = r.1.pos := by rw [hin']
+    have e3 : r.2.2.1 = 0 := by rw [hin']
+    have e4 : r.2.2.2 = 0 := by rw [hin']
+    have e5 : r.1.pos = lseg_advance lay.pos g.align (lseg_adjustment (lseg_req_page g.vaddr (lseg_align g.align))
+        (lseg_cur_page lay.pos (lseg_align g.align))) (lseg_align g.align) := by rw [hin']
+    have hstart : ∀ cv is : Bool, WsdInv cv is r.2.1 { lay := r.1, mem := r.2.2.1, file := r.2.2.2 } := by
+      intro cv is
+      refine ⟨by simp only; rw [hsz]; exact Nat.le_refl _, fun _ => ⟨by rw [e1]; exact Nat.le_refl _, ?_⟩,
+        fun _ => ⟨by rw [e1]; exact Nat.le_refl _, ?_⟩⟩
+      · simp only; rw [e1]; omega
+      · simp only; rw [e1]; omega
+    refine ⟨fun ha => ?_, ?_, ?_⟩
+    · rw [e1, e5]; rw [e5] at hpos
+      exact lseg_advance_congr lay.pos g.vaddr g.align ha hpos
+    · intro hc k s' hng hg hs' hnn
+      have hd2' := hd2.resolve_left (by rw [hc]; exact (fun h => nomatch h))
+      obtain ⟨-, d1⟩ := wsdLoop_dom true false c g _ g.secs _ st lo hinv1 (hstart true false) hlnw hd1
+        (fun _ => hd2') (fun h => nomatch h) hloop
+      have := d1.covers rfl k s' (fun hh => hng ((hG1 k).1 hh)) hg hs' hnn
+      omega
+    · intro hc k s' hng hg hs' ho
+      have hd3' := hd3.resolve_left (by rw [hc]; exact (fun h => nomatch h))
+      obtain ⟨-, d1⟩ := wsdLoop_dom false true c g _ g.secs _ st lo hinv1 (hstart false true) hlnw hd1
+        (fun h => nomatch h) (fun _ => hd3') hloop
+      exact d1.inside rfl k s' (fun hh => hng ((hG1 k).1 hh)) hg hs' ho
 
 end ElfioVerif
